@@ -1,6 +1,7 @@
 package main
 
 import (
+	"encoding/hex"
 	"encoding/json"
 	"flag"
 	"fmt"
@@ -125,7 +126,16 @@ func cmdRun(argv []string) {
 	}
 	fmt.Println(string(out))
 	for _, v := range sum.Violations {
-		fmt.Printf("CEX kind=%s label=%q detail=%s\n    nondets=%v\n", v.Kind, v.Label, v.Detail, compactND(v.Nondets))
+		fmt.Printf("CEX kind=%s label=%q detail=%s\n    nondets=%v\n", v.Kind, v.Label, trunc(v.Detail, 300), compactND(v.Nondets))
+		for _, o := range v.Obs {
+			if i := strings.IndexByte(o, '='); i > 0 {
+				if b, err := hex.DecodeString(o[i+1:]); err == nil && len(b) > 0 {
+					fmt.Printf("    obs %s=%q\n", o[:i], b)
+					continue
+				}
+			}
+			fmt.Printf("    obs %s\n", o)
+		}
 	}
 }
 
